@@ -20,7 +20,7 @@ def hist_part(V, tr, sd):
     h5 = core.cached("c07h5_%d_%s" % (sd, tr) + sh, lambda: gen_hist(
         dict(c12.HIST_B, MaxOps="= 5"), simulate="num=%d" % (60 if tr == "quick" else 1500), depth=6, seed=sd + 31)[1])
     hs = h3 + h5
-    jobs = [{"id": "%s%d" % (n[0], i), "net": n, "hist": h} for i, h in enumerate(hs) for n in ("branched", "gas")]
+    jobs = [{"id": "%s%d" % (n[0], i), "net": n, "hist": h} for i, h in enumerate(hs) for n in ("branched", "gas", "valved")]
     cases = core.pmap(c12.replay_history, jobs, chunksize=4)
     by_id = {c["id"]: c for c in cases}
     res, fails = c12.validate(cases)
